@@ -363,3 +363,45 @@ Definition l2gw_policy_rescan (a : aconfig) (s c : N) : option (str * str) :=
                    end
   | None => None
   end.
+
+(* ---- the published snapshot: pkg/configmgr ConfigManager (Commit, ApplyLoadedConfig, refreshSGSnapshot,
+        LookupSubscriberGroup) as a step model ----
+   running = cd.runningConfig.SubscriberGroups, snap = cd.sgIndex (atomic.Value holding the *MatchIndex built from it).
+   Both publish points are gated by validateCandidate (which ends in ValidateMatchIndex) and publish running and the
+   rebuilt index together under cd.mu; a rejected candidate publishes nothing.  Readers do not take cd.mu: a lookup is
+   an atomic Load of the pointer ([ELoad]) followed, any time later, by Lookup on the immutable index it got ([EUse]). *)
+Record cmstate := { running : config; snap : index }.
+Definition cm_init : cmstate := {| running := []; snap := build [] |}.
+Definition cm_commit (st : cmstate) (cfg : config) : cmstate :=
+  match validate_strict cfg with
+  | VOk => {| running := cfg; snap := build cfg |}
+  | _ => st
+  end.
+Definition cm_lookup (st : cmstate) (s c : N) : option (str * nat) := lookup (snap st) s c.
+
+Inductive cm_event :=
+| ECommit (cfg : config)                 (* Commit / ApplyLoadedConfig of a candidate *)
+| ELoad (reader : nat)                   (* reader: v := cd.sgIndex.Load() *)
+| EUse (reader : nat) (s c : N).         (* reader: v.Lookup(s, c) *)
+
+(* what every reader currently holds: the generation (running configuration) whose index it loaded *)
+Definition held := nat -> config.
+Definition cm_step (sth : cmstate * held) (e : cm_event) : (cmstate * held) * option (option (str * nat)) :=
+  let (st, h) := sth in
+  match e with
+  | ECommit cfg => ((cm_commit st cfg, h), None)
+  | ELoad r => ((st, fun r' => if Nat.eqb r' r then running st else h r'), None)
+  | EUse r s c => ((st, h), Some (lookup (build (h r)) s c))
+  end.
+Fixpoint cm_run (sth : cmstate * held) (es : list cm_event) : list (option (option (str * nat))) :=
+  match es with
+  | [] => []
+  | e :: rest => let (sth', o) := cm_step sth e in o :: cm_run sth' rest
+  end.
+(* the generations that were ever published along a trace (initial one included) *)
+Fixpoint cm_generations (st : cmstate) (es : list cm_event) : list config :=
+  match es with
+  | [] => [running st]
+  | ECommit cfg :: rest => running st :: cm_generations (cm_commit st cfg) rest
+  | _ :: rest => cm_generations st rest
+  end.
